@@ -6,6 +6,7 @@ import (
 	"reflect"
 	"runtime/debug"
 	"sort"
+	"sync"
 	"testing"
 	"time"
 
@@ -954,8 +955,38 @@ func hasCycle(g GraphDesc) (cycle, viaIface bool) {
 	return
 }
 
+// primeSameNamedTypes copies, once per process and before any graph, values of
+// function-local REFERENCE-FREE struct types that print exactly like the
+// graph's node types (pcore.GNode, ...): whatever the copier learns about a
+// type must be keyed by the type, not by its printed name.
+var primeOnce sync.Once
+
+func primeSameNamedTypes() {
+	primeOnce.Do(func() {
+		type GNode struct{ ID, W int }
+		type GLeaf struct{ N int }
+		type GEdge struct{ W int }
+		type TNode struct{ Name string }
+		type PEdge struct{ w int }
+		type GRoot struct {
+			N    GNode
+			L    GLeaf
+			E    GEdge
+			T    TNode
+			P    PEdge
+			Name string
+		}
+		in := &GRoot{N: GNode{ID: 1, W: 2}, L: GLeaf{N: 3}, E: GEdge{W: 4}, T: TNode{Name: "t"}, Name: "plain"}
+		out := dials.VerifDeepCopy(reflect.ValueOf(in))
+		if !reflect.DeepEqual(in, out.Interface()) {
+			panic("priming copy of plain same-named types is not deeply equal")
+		}
+	})
+}
+
 func runC03(c C03Case) vrt.Verdict {
 	debug.SetMaxStack(48 << 20) // runaway recursion dies in milliseconds, not gigabytes
+	primeSameNamedTypes()
 	cyc, cycIface := hasCycle(c.Graph)
 	labels := []string{"mode=" + c.Mode, fmt.Sprintf("nodes=%d", len(c.Graph.Nodes))}
 	if cyc {
@@ -1138,6 +1169,7 @@ func TestC03Graphs(t *testing.T) {
 			"copied directly by the deep copier (root *GNode or *GRoot), by Config with the graph in defaults and in one or two source values (both may set the same interface-typed field, with payloads of the same or different types), and by a watcher re-stack; oracle: terminates, reflect.DeepEqual, and the in->out map of pointer/map references in fields, elements and map values is a function with a fresh range; " +
 			"non-trivial = the graph has a cycle or a reference with in-degree >= 2; distinct = distinct case JSON",
 		Assumptions: []string{
+			"before the first graph, each process copies reference-free function-local struct types that print exactly like the node types (pcore.GNode ...): per-type knowledge of the copier must not leak between distinct types with one printed name",
 			"the reference held directly in an interface value is only required to be deeply equal (the statement does not require its identity to be preserved); references below it are checked again",
 			"config roots reach the recursive node type only through slices, maps, arrays and nil-default interfaces: a config type containing itself through struct-field pointers cannot be pointerified by reflect.StructOf at all, which limits config types, not value graphs",
 			"defaults and the source value are built from two separate instantiations of the graph, so identity across inputs is not asserted",
